@@ -105,3 +105,53 @@ def warm {σ α : Type} (ty : σ → Nat) (ds : List (σ → R α)) : Cache → 
   | c, s :: ss => warm ty ds (decode ty ds c s).2 ss
 
 end Uniflow.Group
+
+/-!
+## `DecodeAssembler` (pkg/encoding/assembler.go)
+
+    func (a *DecodeAssembler) Add(compiler)  { a.compilers = append([]{compiler}, a.compilers...) }   -- prepend
+    func (a *DecodeAssembler) Compile(typ) {
+        if dec, ok := a.decoders.Load(typ); ok { return dec }
+        decoders := every compiler.Compile(typ) that succeeds, in a.compilers order
+        if len(decoders) == 0 { return ErrUnsupportedType }          -- not memoised
+        if len(decoders) == 1 { dec = decoders[0] } else { dec = new DecoderGroup of them }
+        a.decoders.Store(typ, dec); return dec }
+    func (a *DecodeAssembler) Decode(source, target) { dec, err := a.Compile(typeOf(target)); if err … ; return dec.Decode(source, ptr) }
+
+A compiler is a total function from the target type to an optional decoder. The memo maps a
+target type to the state of what was compiled for it: the group's cache (a single decoder has
+no state).
+-/
+namespace Uniflow.Group
+
+abbrev Compiler (σ α : Type) := Nat → Option (σ → R α)
+
+/-- `Add` prepends. -/
+def addCompiler {σ α : Type} (cs : List (Compiler σ α)) (c : Compiler σ α) : List (Compiler σ α) := c :: cs
+
+/-- The decoders `Compile` collects for target type `τ`. -/
+def compiled {σ α : Type} (cs : List (Compiler σ α)) (τ : Nat) : List (σ → R α) :=
+  cs.filterMap (fun c => c τ)
+
+/-- Memo: target type ↦ cache of the group compiled for it (`none` = not compiled yet). -/
+abbrev Memo := Nat → Option Cache
+
+def Memo.empty : Memo := fun _ => none
+
+def Memo.set (m : Memo) (τ : Nat) (c : Cache) : Memo := fun k => if k = τ then some c else m k
+
+/-- `DecodeAssembler.Decode` for target type `τ`. -/
+def asmDecode {σ α : Type} (ty : σ → Nat) (cs : List (Compiler σ α)) (m : Memo) (τ : Nat) (s : σ) : R α × Memo :=
+  match compiled cs τ with
+  | [] => (.unsupported, m)
+  | [d] => (d s, m.set τ [])
+  | ds =>
+    let c := (m τ).getD []
+    let (r, c') := decode ty ds c s
+    (r, m.set τ c')
+
+def asmWarm {σ α : Type} (ty : σ → Nat) (cs : List (Compiler σ α)) : Memo → List (Nat × σ) → Memo
+  | m, [] => m
+  | m, (τ, s) :: rest => asmWarm ty cs (asmDecode ty cs m τ s).2 rest
+
+end Uniflow.Group
